@@ -14,6 +14,11 @@ encoding of Model/Wire.lean; `<opt>` is 0 for `x[..]`, 1 for `x?[..]`):
                                               loop.length] per pass, or ["EMPTY"] when the else branch runs
   forb <hex>                                  the string loop at byte level (iterator with its `remaining`
                                               counter, ForLoop::new, Iterate); items as hex with the loop data
+  comp <val>                                  `[ch for ch in x]`
+  compidx <val> <subscript>                   `[ch for ch in x][a]`
+  compslice <val> <start> <stop> <step>       `[ch for ch in x][a:b:c]` (operands as on the stack)
+  complen <val>                               `[ch for ch in x] | length`
+  compjoin <strval>                           `[ch for ch in x] | join(sep="|")` for a string x
   pyspec <len> <start> <stop> <step>          Spec/PySlice.lean `select` on [0, 1, .., len-1]; operands are
                                               decimal integers or `None`; answer "ok i,j,.." | "ValueError"
                                               (lets the harness compare the Lean spec with python3 itself)
@@ -38,6 +43,7 @@ def showErr : Err → String
   | .mapNotModelled => "map-not-modelled"
   | .noLength => "no-length"
   | .notReversible => "not-reversible"
+  | .notIterable => "not-iterable"
 
 def showRes {α : Type} (f : α → String) : Res α → String
   | .ok v => "ok " ++ f v
@@ -115,6 +121,32 @@ def handle (line : String) : String :=
     | some (.str _ s, []) => showRes Wire.showValue (forValue (iterChars s))
     | some (.arr xs, []) => showRes Wire.showValue (forValue xs)
     | some (.bytes bs, []) => showRes Wire.showValue (forValue (bs.map Value.u64))
+    | _ => "bad-args"
+  | "comp" :: rest =>
+    match Wire.parseValue rest with
+    | some (v, []) => showRes Wire.showValue (identityComprehension v)
+    | _ => "bad-args"
+  | "compidx" :: rest =>
+    match parse2 rest with
+    | some (v, i) => showRes Wire.showValue ((identityComprehension v).bind fun l => vmSubscript false l i)
+    | none => "bad-args"
+  | "compslice" :: rest =>
+    match parse4 rest with
+    | some (v, a, b, c) => showRes Wire.showValue ((identityComprehension v).bind fun l => vmSlice false l a b c)
+    | none => "bad-args"
+  | "complen" :: rest =>
+    match Wire.parseValue rest with
+    | some (v, []) => showRes (fun n => s!"u64:{n}") ((identityComprehension v).bind lengthFilter)
+    | _ => "bad-args"
+  | "compjoin" :: rest =>
+    match Wire.parseValue rest with
+    | some (.str k s, []) =>
+      showRes Wire.showValue ((identityComprehension (.str k s)).bind fun l =>
+        match l with
+        | .arr items =>
+          let parts : List (List Char) := items.map fun it => match it with | .str _ cs => cs | _ => []
+          .ok (.str false ("|".toList.intercalate parts))
+        | _ => .err .notIterable)
     | _ => "bad-args"
   | ["forb", h] =>
     match Wire.hexBytes ((h.drop 2).toString.toList) with
